@@ -888,9 +888,14 @@ pub open spec fn key_dec(s: Seq<u8>) -> Option<Seq<u8>> {
 // (`*_def` is the defining equation; the function itself is opaque and unfolded through `lemma_*_unfold` where needed)
 #[verifier::opaque]
 pub open spec fn lit_str(b: Seq<u8>, pos: int, nested: int) -> Option<(Seq<u8>, int)> decreases b.len() - pos, 1nat {
-    lit_str_def(b, pos, nested)
+    let st = lit_step(b, pos, nested);
+    if st.eof || st.trunc || !depth_fits(st.nested) || st.pos <= pos || st.pos > b.len() { None }
+    else { match st.out {
+        None => Some((Seq::<u8>::empty(), st.pos)),
+        Some(c) => str_prepend(seq![c], lit_str(b, st.pos, st.nested)) } }
 }
-pub open spec fn lit_str_def(b: Seq<u8>, pos: int, nested: int) -> Option<(Seq<u8>, int)> decreases b.len() - pos, 0nat {
+pub open spec fn lit_str_def(b: Seq<u8>, pos: int, nested: int) -> Option<(Seq<u8>, int)>
+{
     let st = lit_step(b, pos, nested);
     if st.eof || st.trunc || !depth_fits(st.nested) || st.pos <= pos || st.pos > b.len() { None }
     else { match st.out {
@@ -903,9 +908,14 @@ pub proof fn lemma_lit_unfold(b: Seq<u8>, pos: int, nested: int)
 // 7.3.4.3 hexadecimal strings
 #[verifier::opaque]
 pub open spec fn hex_str(b: Seq<u8>, pos: int) -> Option<(Seq<u8>, int)> decreases b.len() - pos, 1nat {
-    hex_str_def(b, pos)
+    let st = hex_step(b, pos);
+    if st.eof || st.bad || st.pos <= pos || st.pos > b.len() { None }
+    else { match st.out {
+        None => Some((Seq::<u8>::empty(), st.pos)),
+        Some(c) => str_prepend(seq![c], hex_str(b, st.pos)) } }
 }
-pub open spec fn hex_str_def(b: Seq<u8>, pos: int) -> Option<(Seq<u8>, int)> decreases b.len() - pos, 0nat {
+pub open spec fn hex_str_def(b: Seq<u8>, pos: int) -> Option<(Seq<u8>, int)>
+{
     let st = hex_step(b, pos);
     if st.eof || st.bad || st.pos <= pos || st.pos > b.len() { None }
     else { match st.out {
@@ -949,12 +959,45 @@ pub open spec fn stream_at<R: Resolve>(r: &R, e: Env, m: Map<Seq<u8>, Val>, q: i
 #[verifier::opaque]
 pub open spec fn obj_at<R: Resolve>(r: &R, e: Env, p: int, d: nat) -> Option<(Val, int)>
     decreases d, e.buf.len() - p, 1nat
-{ obj_def(r, e, p, d) }
+{
+    match tok(e.buf, p) { None => None, Some(t1) => {
+        let w = e.buf.subrange(t1.0, t1.1);
+        if !(p < t1.1 <= e.buf.len()) { None }
+        else if w == K_LTLT() {                                   // 7.3.7 dictionary, 7.3.8 stream
+            if d == 0 { None } else {
+            match dict_at(r, e, t1.1, (d - 1) as nat, Map::<Seq<u8>, Val>::empty()) { None => None, Some(x) =>
+                if tok(e.buf, x.1) matches Some(t2) && e.buf.subrange(t2.0, t2.1) == K_STREAM() { stream_at(r, e, x.0, x.1) }
+                else { Some((Val::Dict(x.0), x.1)) } } } }
+        else if is_int_lit(w) {                                   // 7.3.3 integer, 7.3.10 indirect reference `n g R`
+            match ref_tail(e.buf, t1.1) {
+                Some(t3) => match (<u64 as FromDec>::dec(w), <u64 as FromDec>::dec(e.buf.subrange(t3.0, t3.1))) {
+                    (Some(id), Some(gen)) => Some((Val::Ref(id as int, gen as int), t3.2)), _ => None },
+                None => match <i32 as FromDec>::dec(w) { Some(v) => Some((Val::Int(v as int), t1.1)), None => None },
+            } }
+        else if is_real_iso(w) { Some((Val::Real(w), t1.1)) }     // 7.3.3 real
+        else if w.len() > 0 && w[0] == 47 {                        // 7.3.5 name
+            match name_dec(w.subrange(1, w.len() as int)) {
+                Some(n) => if utf8_ok(n) { Some((Val::Name(n), t1.1)) } else { None }, None => None } }
+        else if w == K_LBRACK() {                                 // 7.3.6 array
+            if d == 0 { None } else {
+            match arr_at(r, e, t1.1, (d - 1) as nat) { None => None, Some(x) => Some((Val::Arr(x.0), x.1)) } } }
+        else if w == K_LPAREN() {                                 // 7.3.4.2 literal string
+            match lit_str(e.buf.subrange(t1.1, e.buf.len() as int), 0, 0) { None => None, Some(x) =>
+                match ctx_decrypt(e.ctx, x.0) { None => None, Some(s) => Some((Val::Str(s), t1.1 + x.1)) } } }
+        else if w == K_LT() {                                     // 7.3.4.3 hexadecimal string
+            match hex_str(e.buf.subrange(t1.1, e.buf.len() as int), 0) { None => None, Some(x) =>
+                match ctx_decrypt(e.ctx, x.0) { None => None, Some(s) => Some((Val::Str(s), t1.1 + x.1)) } } }
+        else if w == K_TRUE() { Some((Val::Bool(true), t1.1)) }   // 7.3.2
+        else if w == K_FALSE() { Some((Val::Bool(false), t1.1)) }
+        else if w == K_NULL() { Some((Val::Null, t1.1)) }         // 7.3.9
+        else { None }
+    } }
+}
 pub proof fn lemma_obj_unfold<R: Resolve>(r: &R, e: Env, p: int, d: nat)
     ensures obj_at(r, e, p, d) == obj_def(r, e, p, d)
 { reveal_with_fuel(obj_at, 1); }
 pub open spec fn obj_def<R: Resolve>(r: &R, e: Env, p: int, d: nat) -> Option<(Val, int)>
-    decreases d, e.buf.len() - p, 0nat
+
 {
     match tok(e.buf, p) { None => None, Some(t1) => {
         let w = e.buf.subrange(t1.0, t1.1);
@@ -1000,12 +1043,18 @@ pub open spec fn ref_tail(buf: Seq<u8>, p: int) -> Option<(int, int, int)> {
 #[verifier::opaque]
 pub open spec fn arr_at<R: Resolve>(r: &R, e: Env, p: int, d: nat) -> Option<(Seq<Val>, int)>
     decreases d, e.buf.len() - p, 3nat
-{ arr_def(r, e, p, d) }
+{
+    match tok(e.buf, p) { None => None, Some(t1) =>
+        if e.buf.subrange(t1.0, t1.1) == K_RBRACK() { Some((Seq::<Val>::empty(), t1.1)) } else {
+        match obj_at(r, e, p, d) { None => None, Some(x) =>
+            if !(p < x.1 <= e.buf.len()) { None } else {
+            arr_prepend(seq![x.0], arr_at(r, e, x.1, d)) } } } }
+}
 pub proof fn lemma_arr_unfold<R: Resolve>(r: &R, e: Env, p: int, d: nat)
     ensures arr_at(r, e, p, d) == arr_def(r, e, p, d)
 { reveal_with_fuel(arr_at, 1); }
 pub open spec fn arr_def<R: Resolve>(r: &R, e: Env, p: int, d: nat) -> Option<(Seq<Val>, int)>
-    decreases d, e.buf.len() - p, 2nat
+
 {
     match tok(e.buf, p) { None => None, Some(t1) =>
         if e.buf.subrange(t1.0, t1.1) == K_RBRACK() { Some((Seq::<Val>::empty(), t1.1)) } else {
@@ -1017,12 +1066,24 @@ pub open spec fn arr_def<R: Resolve>(r: &R, e: Env, p: int, d: nat) -> Option<(S
 #[verifier::opaque]
 pub open spec fn dict_at<R: Resolve>(r: &R, e: Env, p: int, d: nat, acc: Map<Seq<u8>, Val>) -> Option<(Map<Seq<u8>, Val>, int)>
     decreases d, e.buf.len() - p, 3nat
-{ dict_def(r, e, p, d, acc) }
+{
+    match tok(e.buf, p) { None => None, Some(t1) => {
+        let w = e.buf.subrange(t1.0, t1.1);
+        if !(p < t1.1 <= e.buf.len()) { None }
+        else if w.len() > 0 && w[0] == 47 {
+            match key_dec(w.subrange(1, w.len() as int)) { None => None, Some(k) =>
+                if !utf8_ok(k) { None } else {
+                match obj_at(r, e, t1.1, d) { None => None, Some(x) =>
+                    if !(t1.1 < x.1 <= e.buf.len()) { None } else { dict_at(r, e, x.1, d, acc.insert(k, x.0)) } } } } }
+        else if w == K_GTGT() { Some((acc, t1.1)) }
+        else { None }
+    } }
+}
 pub proof fn lemma_dict_unfold<R: Resolve>(r: &R, e: Env, p: int, d: nat, acc: Map<Seq<u8>, Val>)
     ensures dict_at(r, e, p, d, acc) == dict_def(r, e, p, d, acc)
 { reveal_with_fuel(dict_at, 1); }
 pub open spec fn dict_def<R: Resolve>(r: &R, e: Env, p: int, d: nat, acc: Map<Seq<u8>, Val>) -> Option<(Map<Seq<u8>, Val>, int)>
-    decreases d, e.buf.len() - p, 2nat
+
 {
     match tok(e.buf, p) { None => None, Some(t1) => {
         let w = e.buf.subrange(t1.0, t1.1);
